@@ -118,6 +118,9 @@ func (wg *WaitGroup) Add(d int) {
 	}
 }
 
+// Count returns the current counter (harness use).
+func (wg *WaitGroup) Count() int { return wg.n }
+
 func (wg *WaitGroup) Done() {
 	wg.Add(-1)
 	if S != nil && !S.killed {
